@@ -189,6 +189,21 @@ CHECKS = {
                 "of logical nodes are boolean-valued in this family. NotImplementedError from a translator is a clean refusal.",
         "technique": SOLVER_TECH + " (generated Python code executed on the proxies)",
     },
+    "C14": {
+        "level": "translation_validation",
+        "text": "Per-program translation validation: the C text emitted by CCodeMapper plus the hoisted assignments is parsed by "
+                "the harness's own C expression front end (C precedence and associativity, truncating integer division, 0/1 "
+                "truth values) and evaluated on z3 proxies; z3 proves per path that it equals the evaluator's value for every "
+                "environment in range, for every (parent, slot, child) skeleton of the C-expressible fragment in integer mode "
+                "and in real mode. Mapper histories (3 expressions with shared / equal / same-prefix wrappers through one "
+                "mapper and its copies) are checked for unique names, definition before use and single assignment. A "
+                "counterexample is replayed by compiling a real C program with gcc where the skeleton is pure arithmetic.",
+        "design_ref": "DESIGN.md §4 C14",
+        "note": "Trusted: pv/cexpr.py as the meaning of the C text (self-tested against gcc on every run), the evaluator (C02), "
+                "z3. No overflow (values in a stated 64-bit-safe range); // and % only on non-negative dividend / positive "
+                "divisor; floating point modelled as reals.",
+        "technique": SOLVER_TECH + "; generated C parsed and given C semantics over the same proxies; gcc on replay",
+    },
 }
 
 _PENDING = "check not built yet in this session (the design in DESIGN.md applies; will be claimed once its harness exists)"
